@@ -87,6 +87,7 @@ struct ChildResult {
     uint64_t ehash = 0;
     int task = -1, op = -1;
     std::vector<int> strace;
+    std::string err_text;
 };
 
 std::string viol_sig(const Plan &p, int prop, const std::string &cls, int task, int op) {
@@ -97,6 +98,8 @@ std::string viol_sig(const Plan &p, int prop, const std::string &cls, int task, 
 }
 
 // run one plan in a forked child (crashes, sanitizer aborts and hangs become results)
+std::string g_tmpdir = "build/tmp";
+int g_child_seq = 0;
 ChildResult run_child(const Plan &p, int armed, double timeout_s = 120) {
     ChildResult cr;
     int fd[2];
@@ -104,10 +107,15 @@ ChildResult run_child(const Plan &p, int armed, double timeout_s = 120) {
     Beacon *b = (Beacon *)mmap(nullptr, sizeof(Beacon), PROT_READ | PROT_WRITE, MAP_SHARED | MAP_ANONYMOUS, -1, 0);
     memset((void *)b, 0, sizeof(Beacon));
     fflush(stdout); fflush(stderr);
+    mkdir("build", 0777); mkdir(g_tmpdir.c_str(), 0777);
+    char errpath[256];
+    snprintf(errpath, sizeof errpath, "%s/child-%d-%d.err", g_tmpdir.c_str(), (int)getpid(), g_child_seq++);
     pid_t pid = fork();
     if (pid == 0) {
         close(fd[0]);
         g_beacon = b;
+        int efd = open(errpath, O_WRONLY | O_CREAT | O_TRUNC, 0644);
+        if (efd >= 0) { dup2(efd, 2); close(efd); }
         Stats st;
         RunResult rr = execute_plan(p, armed, st);
         Json j = Json::obj();
@@ -151,6 +159,8 @@ ChildResult run_child(const Plan &p, int armed, double timeout_s = 120) {
     if (!reaped) waitpid(pid, &status, 0);
     int bk = b->op_kind; uint32_t bf = b->op_flags;
     munmap((void *)b, sizeof(Beacon));
+    read_file(errpath, cr.err_text);
+    unlink(errpath);
     if (timed_out) {
         cr.ok = true; cr.violated = true; cr.prop = armed; cr.cls = "hang"; cr.detail = "run did not finish within the wall-clock watchdog";
         cr.sig = std::string(prop_name(armed)) + ":hang@" + flags_sig(bk, bf);
@@ -163,9 +173,15 @@ ChildResult run_child(const Plan &p, int armed, double timeout_s = 120) {
         return cr;
     }
     if (WIFEXITED(status) && WEXITSTATUS(status) == 77) {
-        cr.ok = true; cr.violated = true; cr.prop = armed; cr.cls = "sanitizer";
-        cr.detail = "AddressSanitizer/UBSan report while executing " + flags_sig(bk, bf) + " (report on stderr)";
-        cr.sig = std::string(prop_name(armed)) + ":sanitizer@" + flags_sig(bk, bf);
+        // a wild WRITE changes somebody else's bytes (the claimed properties speak about that); an over-READ is memory
+        // safety only (C06, not claimed) and is reported as an observation, never as a violation
+        bool wr = cr.err_text.find("WRITE of size") != std::string::npos;
+        bool rd = cr.err_text.find("READ of size") != std::string::npos;
+        cr.ok = true; cr.violated = true; cr.prop = armed; cr.cls = wr ? "sanitizer-write" : rd ? "sanitizer-read" : "sanitizer-other";
+        size_t pos = cr.err_text.find("ERROR: AddressSanitizer");
+        std::string head = pos == std::string::npos ? "" : cr.err_text.substr(pos, std::min<size_t>(200, cr.err_text.find('\n', pos) == std::string::npos ? 200 : cr.err_text.find('\n', pos) - pos));
+        cr.detail = "AddressSanitizer report while executing " + flags_sig(bk, bf) + ": " + head;
+        cr.sig = std::string(prop_name(armed)) + ":" + cr.cls + "@" + flags_sig(bk, bf);
         return cr;
     }
     Json j;
@@ -293,6 +309,26 @@ struct Minimiser {
     }
 };
 
+bool single_caller_single_object(const Plan &p) {
+    if (p.tasks.size() != 1) return false;
+    int key = -1;
+    for (auto &o : p.tasks[0].ops) {
+        int fam;
+        switch (o.kind) {
+        case H_INIT: case H_REINIT: case H_UPDATE: case H_FINAL: case H_FREE: case H_DIRTY: fam = 1; break;
+        case M_INIT: case M_REINIT: case M_UPDATE: case M_FINAL: case M_FREE: case M_DIRTY: fam = 2; break;
+        case K_EXTRACT: case K_EXPAND: case K_FREE: case K_DIRTY: fam = 3; break;
+        case P_INIT: case P_GEN: case P_FEED: case P_RESEED: case P_LIMIT: case P_FREE: case P_DIRTY: fam = 4; break;
+        default: fam = 0;
+        }
+        int k = fam ? fam * 16 + (o.obj % NOBJ) : 1000;
+        if (fam == 0 && p.tasks[0].ops.size() > 1) return false;
+        if (key >= 0 && k != key) return false;
+        key = k;
+    }
+    return true;
+}
+
 // ------------------------------------------------------------------ batch
 struct Shm {
     volatile int64_t stop_after;   // workers skip run indices above this
@@ -327,6 +363,7 @@ int cmd_replay(const Args &a) {
     std::string want_cls = j.at("class").as_s();
     ChildResult r = run_child(p, armed);
     if (!r.ok) { fprintf(stderr, "replay: harness failure\n"); return 2; }
+    if (!r.err_text.empty()) fprintf(stderr, "%s\n", r.err_text.substr(0, 4000).c_str());
     if (r.violated && r.prop == armed) {
         printf("VIOLATION property=%s replay=%s\n", prop_name(armed), a.file.c_str());
         printf("  class=%s %s\n", r.cls.c_str(), r.detail.c_str());
@@ -346,6 +383,7 @@ int cmd_run(const Args &a) {
     int J = std::max(1, std::min(a.jobs, 64));
     if ((uint64_t)J > total) J = (int)std::max<uint64_t>(1, total);
     mkdir(a.tmpdir.c_str(), 0777);
+    g_tmpdir = a.tmpdir;
     Shm *shm = (Shm *)mmap(nullptr, sizeof(Shm), PROT_READ | PROT_WRITE, MAP_SHARED | MAP_ANONYMOUS, -1, 0);
     memset((void *)shm, 0, sizeof(Shm));
     shm->stop_after = INT64_MAX;
@@ -546,9 +584,15 @@ int cmd_run(const Args &a) {
             if (known) {
                 printf("KNOWN-FINDING: property=%s %s (%s)\n", a.prop.c_str(), r1.sig.c_str(), r1.detail.c_str());
                 res.set("known_finding_hit", r1.sig);
+            } else if (r1.cls == "sanitizer-read" || r1.cls == "sanitizer-other") {
+                printf("OBSERVATION (not a violation of %s; memory safety is unclaimed property C06): run %lld: %s\n", a.prop.c_str(), (long long)vi, r1.detail.c_str());
+                fprintf(stderr, "%s\n", r1.err_text.substr(0, 3000).c_str());
+                Json ob = Json::obj(); ob.set("class", r1.cls); ob.set("detail", r1.detail); ob.set("run_index", (long long)vi);
+                res.set("unclaimed_observation", ob);
+                res.set("search_truncated_at_run", (long long)vi);
             } else {
                 // explicit schedule
-                if (r1.cls.compare(0, 5, "crash") != 0 && r1.cls != "sanitizer" && r1.cls != "hang") {
+                if (r1.cls.compare(0, 5, "crash") != 0 && r1.cls.compare(0, 9, "sanitizer") != 0 && r1.cls != "hang") {
                     Plan q = p; q.sched_explicit = true; q.sched = r1.strace;
                     ChildResult r3 = run_child(q, armed);
                     if (r3.ok && r3.violated && r3.prop == armed && r3.cls == r1.cls) p = q;
@@ -557,6 +601,19 @@ int cmd_run(const Args &a) {
                 Minimiser m; m.armed = armed; m.cls = r1.cls;
                 m.run(p);
                 ChildResult rf = run_child(p, armed);
+                bool hard = r1.cls.compare(0, 5, "crash") == 0 || r1.cls.compare(0, 9, "sanitizer") == 0 || r1.cls == "hang";
+                if (armed == C19 && hard && single_caller_single_object(p)) {
+                    // the failure needs neither a second caller nor an unrelated earlier call: it is a sequential defect of one
+                    // API family (some other property's business), not a reentrancy violation
+                    printf("OBSERVATION (not a violation of C19: reproduces with one caller on one object, no interleaving): run %lld: %s %s\n", (long long)vi, r1.cls.c_str(), r1.detail.c_str());
+                    Json ob = Json::obj(); ob.set("class", r1.cls); ob.set("detail", r1.detail); ob.set("run_index", (long long)vi); ob.set("plan", plan_to_json(p));
+                    res.set("unclaimed_observation", ob);
+                    res.set("search_truncated_at_run", (long long)vi);
+                    res.set("violations", 0);
+                    if (!a.out.empty()) write_file(a.out, res.str(1));
+                    munmap((void *)shm, sizeof(Shm));
+                    return 0;
+                }
                 mkdir(a.replay_dir.c_str(), 0777);
                 std::string path = a.replay_dir + "/" + a.prop + "-" + g_variant + "-" + std::to_string((unsigned long long)a.seed) + "-" + std::to_string((long long)vi) + ".json";
                 Json rj = Json::obj();
